@@ -3,7 +3,6 @@ use crate::ctx;
 use crate::cb::KKey;
 use crate::key::*;
 use crate::report::{Cfg, Fail, Report, Viol};
-use crate::snap;
 use crate::util::{Rng, J};
 use i_tree::key::list::KeyExpList;
 use i_tree::key::tree::KeyExpTree;
@@ -117,12 +116,10 @@ struct Node {
     op: KOp,
 }
 
-fn canon(ex: &KeyExec<KTree>, t: i32, r: i32) -> Vec<u8> {
-    let s = ex.sut.as_ref().unwrap().snap().unwrap();
-    let mut c = snap::canonical(&s, |p, out| {
-        out.push(p.0 as u8);
-        out.push((p.1 - t).clamp(0, r + 1) as u8);
-    });
+fn canon<C: KeyColl>(ex: &KeyExec<C>, t: i32, r: i32) -> Vec<u8> {
+    let (mut c, n) = ex.sut.as_ref().unwrap().phys_canon(t, r).unwrap();
+    // number of physically stored entries first (used by the distinct-case rule)
+    c.insert(0, n.min(255) as u8);
     c.push(0xFD);
     let mut live: Vec<(i32, i32)> = ex.model.iter().filter(|e| e.1 > t).map(|e| (e.0, e.1 - t)).collect();
     live.sort();
@@ -145,13 +142,13 @@ fn path_of(nodes: &[Node], mut i: u32) -> Vec<KOp> {
 }
 
 /// replay an explicit path on a fresh instance; true if some monitor fires
-fn confirm(hint: usize, ops: &[KOp], mon: &KMon) -> bool {
+fn confirm<C: KeyColl>(hint: usize, ops: &[KOp], mon: &KMon) -> bool {
     let mut scratch = Report::new();
-    run_history::<KTree>(hint, ops, mon, &mut scratch, u64::MAX - 1).is_err()
+    run_history::<C>(hint, ops, mon, &mut scratch, u64::MAX - 1).is_err()
 }
 
 /// the operation alphabet the closure applies at one state, in a fixed order
-fn state_ops(ex: &KeyExec<KTree>, t: i32, u: i32, r: i32, keys: &[i32], do_export: bool) -> Vec<KOp> {
+fn state_ops<C: KeyColl>(ex: &KeyExec<C>, t: i32, u: i32, r: i32, keys: &[i32], do_export: bool) -> Vec<KOp> {
     let mut ops: Vec<KOp> = Vec::with_capacity(64);
     for &k in keys {
         if !ex.model.iter().any(|e| e.0 == k && e.1 > t) {
@@ -179,6 +176,14 @@ fn state_ops(ex: &KeyExec<KTree>, t: i32, u: i32, r: i32, keys: &[i32], do_expor
 }
 
 pub fn suite_key_closure(cfg: &Cfg, rep: &mut Report) {
+    if cfg.str_or("coll", "tree") == "list" {
+        key_closure::<KList>(cfg, rep)
+    } else {
+        key_closure::<KTree>(cfg, rep)
+    }
+}
+
+fn key_closure<C: KeyColl>(cfg: &Cfg, rep: &mut Report) {
     let judge = KMon::from_list(cfg.str_or("mon", "all"));
     // --emit 1 --only <(set index << 40) | state> --seq <n>: print the explicit witness instead
     let emit_for = if cfg.emit { cfg.only.map(|h| ((h >> 40) as usize, (h & 0xFF_FFFF_FFFF) as u32, cfg.num("seq", 0) as usize)) } else { None };
@@ -210,21 +215,21 @@ pub fn suite_key_closure(cfg: &Cfg, rep: &mut Report) {
         let hist_base = (si as u64) << 40;
         let mut nodes: Vec<Node> = vec![Node { parent: 0, op: KOp::Empty }];
         let mut seen: HashMap<Vec<u8>, u32> = HashMap::new();
-        let root = KeyExec::<KTree>::new(hint);
+        let root = KeyExec::<C>::new(hint);
         seen.insert(canon(&root, 0, r), 0);
-        let mut frontier: Vec<(u32, KeyExec<KTree>, i32)> = vec![(0, root, 0)];
+        let mut frontier: Vec<(u32, KeyExec<C>, i32)> = vec![(0, root, 0)];
         let mut transitions = 0u64;
         let mut depth = 0u64;
         let mut truncated = false;
         let keys: Vec<i32> = (0..u).map(|i| 2 * i + 1).collect();
         'bfs: while !frontier.is_empty() {
-            let mut next: Vec<(u32, KeyExec<KTree>, i32)> = Vec::new();
+            let mut next: Vec<(u32, KeyExec<C>, i32)> = Vec::new();
             for (idx, ex, t) in frontier.iter() {
                 let (idx, t) = (*idx, *t);
                 let ops = state_ops(ex, t, u, r, &keys, do_export);
                 if let Some((_, want_state, want_seq)) = emit_for {
                     if idx == want_state {
-                        println!("CTOR hint={}", hint);
+                        println!("CTOR coll={} hint={}", C::NAME, hint);
                         for o in path_of(&nodes, idx) {
                             println!("OP {}", o.line());
                         }
@@ -255,8 +260,8 @@ pub fn suite_key_closure(cfg: &Cfg, rep: &mut Report) {
                         Err(f) => {
                             let mut path = path_of(&nodes, idx);
                             path.push(op);
-                            let ok = f.sig.starts_with("HARNESS") || confirm(hint, &path, &mon);
-                            handle_fail::<KTree>(rep, f, hint, &path, ok);
+                            let ok = f.sig.starts_with("HARNESS") || confirm::<C>(hint, &path, &mon);
+                            handle_fail::<C>(rep, f, hint, &path, ok);
                             if rep.counters.get("violations_total") > 50 {
                                 truncated = true;
                                 break 'bfs;
@@ -293,11 +298,11 @@ pub fn suite_key_closure(cfg: &Cfg, rep: &mut Report) {
         rep.states += nodes.len() as u64;
         rep.transitions += transitions;
         rep.counters.max("max_closure_depth", depth);
-        rep.counters.add(&format!("closure_states_u{}_r{}_hint{}", u, r, hint), nodes.len() as u64);
+        rep.counters.add(&format!("closure_states_{}_u{}_r{}_hint{}", C::NAME, u, r, hint), nodes.len() as u64);
         for cn in seen.keys() {
             // distinct non-trivial case = canonical physical state holding at least 2 entries
-            if cn.iter().take_while(|&&b| b != 0xFD).filter(|&&b| b == snap::CANON_RED || b == snap::CANON_BLACK).count() >= 2 {
-                rep.case(crate::util::hash_bytes(cn) ^ ((u as u64) << 56) ^ ((r as u64) << 48));
+            if cn[0] >= 2 {
+                rep.case(crate::util::hash_bytes(cn) ^ ((u as u64) << 56) ^ ((r as u64) << 48) ^ crate::util::hash_bytes(C::NAME.as_bytes()));
             }
         }
         if rep.samples.len() < 3 && nodes.len() > 10 {
